@@ -50,17 +50,30 @@ RESTART_COUNT = {'quick': 160, 'thorough': 3000}
 SLOW_KNOBS = dict(KNOBS, handshake_skew=[0.0, 0.3, 1.0, 2.0, 3.0], actions=KNOBS['actions'] + ['restart', 'restart'])
 
 
+# and a family where the Supervisor configuration changes while jobs are in progress: numprocs decreased (lazily or not)
+# on the instances that run or are asked to run the processes, then the application restarted
+DYN_KNOBS = {'n_min': 1, 'n_max': 3,
+             'apps': {'n_apps': (1, 2), 'n_progs': (1, 3), 'seq_max': 2, 'startsecs': (0, 3), 'stopwaitsecs': (1, 5),
+                      'per_instance_diff': 0.0, 'managed_p': 1.0, 'max_numprocs': 3, 'autorestart': ('false',)},
+             'behaviours': ['normal'] * 4 + ['slow_stop'],
+             'actions': ['update_numprocs', 'update_numprocs', 'update_numprocs', 'restart_application',
+                         'restart_application', 'stop_then_decrease', 'start_application', 'restart_process'],
+             'n_actions': [3, 4, 6, 8], 'gaps': [0.0, 0.05, 0.5, 2.0, 6.0], 'early_p': 0.0}
+DYN_COUNT = {'quick': 200, 'thorough': 3000}
+
+
 def plan(tier, seed):
     return [{'seed': seed * 1000003 + i} for i in range(COUNT[tier])] + \
         [{'seed': seed * 1000003 + 700000 + i, 'family': 'target-restarts-during-job'}
          for i in range(RESTART_COUNT[tier])] + \
-        [{'seed': seed * 1000003 + 900000 + i, 'family': 'slow-handshake'} for i in range(COUNT[tier] // 8)]
+        [{'seed': seed * 1000003 + 900000 + i, 'family': 'slow-handshake'} for i in range(COUNT[tier] // 8)] + \
+        [{'seed': seed * 1000003 + 600000 + i, 'family': 'dynconf'} for i in range(DYN_COUNT[tier])]
 
 
 def run_case(case):
     tracker = Tracker()
     mon = JobTerminationMonitor(tracker)
-    run = Run(case, {'target-restarts-during-job': RESTART_KNOBS, 'slow-handshake': SLOW_KNOBS}.get(case.get('family'), KNOBS),
+    run = Run(case, {'target-restarts-during-job': RESTART_KNOBS, 'slow-handshake': SLOW_KNOBS, 'dynconf': DYN_KNOBS}.get(case.get('family'), KNOBS),
               [tracker, mon])
     violations = run.execute()
     nontrivial = mon.counters.get('given_up_jobs', 0) > 0 or run.counters.get('dropped_process_publications', 0) > 0
